@@ -635,6 +635,9 @@ Definition guard_exempt : list (string * string * string) := [
   ("colvarcomp_neuralnetwork.cpp", "m_output_index", "same member as output_component");
   ("colvarcomp_torchann.cpp", "output_component", "same member name as neuralNetwork's");
   ("colvarcomp_protein.cpp", "vectorNumber", "loop ends at the first failed extraction (repaired); swept by the check, no model");
+  ("colvaratoms.cpp", "atomNumbersRange", "read with key_lookup: first <= last and both ends checked before reserve and loop (repaired); structural cases, no model");
+  ("colvaratoms.cpp", "atomNameResidueRange", "read with key_lookup: first <= last checked (repaired); needs a topology-aware engine, not configurable in the simulator");
+  ("colvarcomp_protein.cpp", "residueRange", "read with key_lookup: first <= last, reserve inside try/catch, loop ends at last (repaired); structural cases, no model");
   ("colvargrid_def.h", "sizes", "state-file keyword: property C11");
   ("colvargrid_def.h", "widths", "state-file keyword: property C11") ].
 
